@@ -274,7 +274,7 @@ def items_small(tier):
     thorough = tier == "thorough"
     for d in ((2, 3, 4) if thorough else (2, 3)):
         if thorough or d == 2:
-            routes = [("none", True), ("chain", False), ("initial_state", True), ("chain", True)][: 4 if thorough else 2]
+            routes = [("none", True), ("chain", False), ("initial_state", False), ("chain", True), ("initial_state", True)][: 5 if thorough else 3]
         else:
             routes = [("none", True)]
         anc_states = ([None] if thorough or d == 2 else []) + _bits(d - 1)
@@ -326,7 +326,7 @@ def _strategy(max_d, max_cycles):
             case.update(layout=layout, qubits=sub)
         else:
             d = draw(st.integers(2, max_d))
-        cycles = draw(st.one_of(st.integers(0, 5), st.integers(0, max_cycles)))
+        cycles = draw(st.sampled_from(list(range(0, max_cycles + 1)) + [1, 2, 3, 4, 5, 6]))
         refocus = True if desc == "none" else draw(st.booleans())
         omit = desc in ("chain", "connectivity") and draw(st.integers(0, 7)) == 0
         data = None if omit else draw(st.lists(st.integers(0, 1), min_size=d, max_size=d))
